@@ -1510,3 +1510,55 @@ package adaptation
 //@   ensures [args]   callarg("func:adaptation.Adaptation.updateFn", old(ncalls("func:adaptation.Adaptation.updateFn")), 2) == req.Update
 //@   ensures [result] result.0 != nil && fresh(result.0) && result.0.Failed == callret("func:adaptation.Adaptation.updateFn", old(ncalls("func:adaptation.Adaptation.updateFn")), 0) && result.1 == callret("func:adaptation.Adaptation.updateFn", old(ncalls("func:adaptation.Adaptation.updateFn")), 1)
 //@   ensures [lock]   !held(p.r.Mutex) && epoch(p.r.Mutex) == old(epoch(p.r.Mutex)) + 1
+
+// ---------------------------------------------------------------------------
+// Plugin synchronization vs. runtime requests (adaptation.go) — C08, sequential part
+// ---------------------------------------------------------------------------
+// The registration loop takes the sync lock exclusively around "snapshot callback + activation"
+// and releases it exactly once per iteration on every path; activation (append + sort) happens
+// under the adaptation lock inside that section.  Runtime sections hold the sync lock shared.
+// (What these contracts cannot say is the interleaving theorem itself; see DESIGN.md.)
+// assumed about the two functions that build and start a plugin connection (not verified here):
+// they work on the new plugin object only, and a started plugin is well formed
+//@ func Adaptation.newExternalPlugin
+//@   props C08 C17
+//@   trusted
+//@   ensures result.1 == nil ==> result.0 != nil && fresh(result.0)
+//@ func plugin.start
+//@   props C08 C17
+//@   trusted
+//@   requires p != nil
+//@   modifies object(p)
+//@   ensures result == nil ==> wfPlugin(p) && !p.closed
+
+//@ func Adaptation.requestPluginSync
+//@   props C08
+//@   requires r != nil && !held(r.syncLock) && rheld(r.syncLock) == 0
+//@   modifies lock(r.syncLock)
+//@   ensures held(r.syncLock) && rheld(r.syncLock) == 0
+//@ func Adaptation.finishedPluginSync
+//@   props C08
+//@   requires r != nil && held(r.syncLock) && rheld(r.syncLock) == 0
+//@   modifies lock(r.syncLock)
+//@   ensures !held(r.syncLock) && rheld(r.syncLock) == 0
+
+//@ func Adaptation.acceptPluginConnections$1
+//@   props C08 C17
+//@   requires r != nil && l != nil && r.syncFn != nil && !held(r.syncLock) && rheld(r.syncLock) == 0 && !held(r.Mutex) && wfPlugins(r)
+//@   modifies @writes
+//@   at call func:adaptation.Adaptation.syncFn assert held(r.syncLock) && !held(r.Mutex)
+//@   at call Adaptation.sortPlugins assert held(r.syncLock) && held(r.Mutex)
+//@   ensures [free] !held(r.syncLock) && rheld(r.syncLock) == 0 && !held(r.Mutex)
+//@   loop 1 invariant r != nil && r.syncFn != nil && !held(r.syncLock) && rheld(r.syncLock) == 0 && !held(r.Mutex) && wfPlugins(r)
+
+//@ func Adaptation.BlockPluginSync
+//@   props C08
+//@   requires r != nil && !held(r.syncLock)
+//@   modifies lock(r.syncLock)
+//@   ensures result != nil && fresh(result) && result.r == r && rheld(r.syncLock) == old(rheld(r.syncLock)) + 1
+//@ func PluginSyncBlock.Unblock
+//@   props C08
+//@   requires b != nil && b.r != nil ==> rheld(b.r.syncLock) > 0
+//@   modifies b.r, lock(old(b.r).syncLock)
+//@   ensures [once]  b != nil ==> b.r == nil
+//@   ensures [rel]   b != nil && old(b.r) != nil ==> rheld(old(b.r).syncLock) == old(rheld(b.r.syncLock)) - 1
